@@ -38,6 +38,9 @@ def run_api(job):
     try:
         if api == "cd":
             return eng.run_case({"case": case, "variant": {"start": start, "dt": DT}, "seed": seed})
+        if api == "cd-incremental":
+            # the Control object is used in one computation, then extended, then used again
+            return eng.run_case({"case": case, "variant": {"start": start, "dt": DT, "incremental": True}, "seed": seed})
         us = eng.step_unitaries(case)
         halves = {k: eng.superop(v) for k, v in us.items()}
         ctrl = eng.build_control(case, DT, start) if case["ctl"] else None
@@ -105,8 +108,13 @@ def run_chain(job):
             chain.add_site_hamiltonian(site, eng.unitary_log_hamiltonian(ustep, DT))
             rhos.append(probes.generic_rho(d, seed + site))
         # interleave the two sites' schedules by insertion index
-        entries = [(c[3], 0, c) for c in a["ctl"]] + [(c[3], 1, c) for c in b["ctl"]]
-        for _, site, c in sorted(entries, key=lambda e: (e[0], e[1])):
+        entries = sorted([(c[3], 0, c) for c in a["ctl"]] + [(c[3], 1, c) for c in b["ctl"]], key=lambda e: (e[0], e[1]))
+        for i, (_, site, c) in enumerate(entries):
+            if job.get("incremental") and i == (len(entries) + 1) // 2:
+                # the same ChainControl object is used in a computation before it is extended
+                oqupy.PtTebd(oqupy.AugmentedMPS([r.copy() for r in rhos]), chain, [None, None],
+                             oqupy.PtTebdParameters(dt=DT, order=2, epsrel=1e-13), chain_control=ctrl,
+                             start_time=0.5, dynamics_sites=[0]).compute(n, progress_type="silent")
             ctrl.add_single_site_control(eng.control_superop(d, m, c[0], c[2]), site=site,
                                          step=int(c[0]), post=bool(c[1]))
         tebd = oqupy.PtTebd(oqupy.AugmentedMPS([r.copy() for r in rhos]), chain, [None, None],
@@ -174,6 +182,8 @@ def run(ctx):
             trig = devrec.get(ckey(case)) != case["recs"]
             ndiff += trig
             apis = ["cd"]
+            if len(case["ctl"]) >= 2 and idx % 2 == 0:
+                apis.append("cd-incremental")
             if idx % 3 == 0:
                 apis.append("cdf")
             if idx % 3 == 1:
@@ -187,7 +197,8 @@ def run(ctx):
             raise core.MachineryError("deviation MixedTimeSpecOrder not distinguished in config %s" % label)
         ntrig += ndiff
         for i in range(0, len(ints) - 1, 1 if quick else 1):
-            chain_jobs.append({"a": ints[i], "b": ints[(i * 7 + 3) % len(ints)], "seed": ctx.seed})
+            chain_jobs.append({"a": ints[i], "b": ints[(i * 7 + 3) % len(ints)], "seed": ctx.seed,
+                               "incremental": bool(i % 2)})
     if quick:
         chain_jobs = chain_jobs[::3]
     res = core.pmap(run_api, jobs, chunksize=8)
@@ -209,7 +220,7 @@ def run(ctx):
             ctx.violation(key, "%s: %s" % (cid, x), {"case": c, "api": job["api"], "start": job["start"]})
     res = core.pmap(run_chain, chain_jobs, chunksize=4)
     for job, mm in zip(chain_jobs, res):
-        cid = {"api": "tebd", "site0": job["a"]["ctl"], "site1": job["b"]["ctl"]}
+        cid = {"api": "tebd", "site0": job["a"]["ctl"], "site1": job["b"]["ctl"], "incremental": job.get("incremental", False)}
         ctx.case(cid, nontrivial=bool(job["a"]["ctl"] or job["b"]["ctl"]))
         for x in mm:
             ctx.violation("C18:tebd:%s" % x["what"], "%s: %s" % (cid, x), {"chain": [job["a"], job["b"]]})
